@@ -164,7 +164,7 @@ Record leaf := {
 (* model validators (mode="after") in the order pydantic runs them; the semantics of each is below *)
 Inductive vid :=
 | VDevMode | VAlphaFinal | VFinalBounds | VInitStep | VReduceStd
-| VOptions (names : list string)
+| VOptions (names : list string) (allowed : option (list string))
 | VTempBins | VEdgeBins
 | VWavelet (names modes : list string)
 | VAdaptive | VSeed.
@@ -365,10 +365,16 @@ Definition v_reduce_std (f : list (string * sval)) : option reason :=
   | _ => Some RCrash
   end.
 
-Definition v_options (names : list string) (f : list (string * sval)) : option reason :=
+(* set_numeric_dict: (since /repo e5358469) every option must be one of the names the split components are
+   hard-wired to (`allowed`; None = the older code without that loop), then every month / day must be an option *)
+Definition v_options (names : list string) (allowed : option (list string)) (f : list (string * sval)) : option reason :=
   match get_leaf "options" f with
   | Some (JList opts) =>
-      if forallb (fun n => match get_leaf n f with Some (JStr s) => mem_jstr s opts | _ => false end) names
+      if negb (match allowed with
+               | Some al => forallb (fun o => match o with JStr s => mem s al | _ => false end) opts
+               | None => true
+               end) then Some RCross
+      else if forallb (fun n => match get_leaf n f with Some (JStr s) => mem_jstr s opts | _ => false end) names
       then None else Some RCross
   | _ => Some RCrash
   end.
@@ -415,7 +421,7 @@ Definition run_vid (v : vid) (gov : list stree) (f : list (string * sval)) : opt
   | VFinalBounds => v_final_bounds f
   | VInitStep => v_init_step f
   | VReduceStd => v_reduce_std f
-  | VOptions names => v_options names f
+  | VOptions names allowed => v_options names allowed f
   | VTempBins => v_temp_bins f
   | VEdgeBins => v_edge_bins f
   | VWavelet n m => v_wavelet n m f
